@@ -66,7 +66,7 @@ def _build(fl, style):
 
 VALUE_KINDS = ["absent", "int", "bool", "none", "list0", "list1", "list2", "str", "float"]
 TEXT_KINDS = ["absent", "int", "bool", "none", "list1", "list2", "str", "float"]
-TEXT_CHANNELS = ["argv-dotted", "argv-append", "argv-group-json", "cfg-string", "env"]
+TEXT_CHANNELS = ["argv-dotted", "argv-append", "argv-group-json", "cfg-string", "env", "env-group-and-member", "argv-group-then-member", "argv-member-then-group"]
 
 
 def _value(name, vk, concrete=False):
@@ -196,6 +196,26 @@ def text(fl, channel, first_kind):
         elif channel == "env":
             env = {"APP_G__" + n.replace(".", "__").upper(): (json.dumps(v) if not isinstance(v, str) else v) for n, v in flat.items()}
             call = lambda p: p.parse_env(env)
+        elif channel in ("env-group-and-member", "argv-group-then-member", "argv-member-then-group"):
+            # the whole-group value together with one member value (three styles declare the group option)
+            styles = [s for s in STYLES if s != "dotted"]
+            if len(flat) < 2:
+                return None
+            member = sorted(flat)[-1]
+            group_part = {}
+            for n, v in flat.items():
+                if n != member:
+                    _set(group_part, n, v)
+            mtext = json.dumps(flat[member]) if not isinstance(flat[member], str) else flat[member]
+            if channel == "env-group-and-member":
+                env = {"APP_G": json.dumps(group_part), "APP_G__" + member.replace(".", "__").upper(): mtext}
+                call = lambda p: p.parse_env(env)
+            elif channel == "argv-group-then-member":
+                argv = ["--g=" + json.dumps(group_part), f"--g.{member}={mtext}"]
+                call = lambda p: p.parse_args(argv)
+            else:
+                argv = [f"--g.{member}={mtext}", "--g=" + json.dumps(group_part)]
+                call = lambda p: p.parse_args(argv)
         else:
             raise RuntimeError(channel)
         outs = [(st, _outcome(lambda st=st: call(ps[st]))) for st in styles]
